@@ -14,11 +14,12 @@ type v1SessionAffinity = v1.ServiceAffinity
 
 // VerifSvcPolicy sets the external / internal traffic policy and the maglev annotation independently
 // (the exported K8sSvcWithLocalOnly sets both policies at once).
-func VerifSvcPolicy(extLocal, intLocal, maglev bool) K8sServicePortOption {
+func VerifSvcPolicy(extLocal, intLocal, maglev, exclude bool) K8sServicePortOption {
 	return func(s any) {
 		s.(*servicePort).ServicePort.(*serviceInfo).nodeLocalExternal = extLocal
 		s.(*servicePort).ServicePort.(*serviceInfo).nodeLocalInternal = intLocal
 		s.(*servicePort).useMaglev = maglev
+		s.(*servicePort).excludeService = exclude
 	}
 }
 
